@@ -173,15 +173,11 @@ theorem stmtSetplugstate_rel (Q : Bytes → Bool) (d a o e l p s i) (s' : Store)
   unfold stmtSetplugstate'
   have ht : spsTarget (withArgs d s') e l p s = spsTarget d e l p s := rfl
   rw [ht]
-  have hx : (withArgs d s').xmUsed = d.xmUsed := rfl
-  rw [hx]
   split
   · exact ⟨s', rfl, hS⟩
-  · split
-    · exact ⟨s', rfl, hS⟩
-    · rename_i s0 plug _
-      exact ⟨_, rfl, setArgs_upd_agree Q d s' a.arglist (plug.node.getD [])
-        (fun g => { g with state := (pickState askRx s0 i o []).2.1, val := some s0 }) (fun _ => rfl) hS⟩
+  · rename_i s0 plug _
+    exact ⟨_, rfl, setArgs_upd_agree Q d s' a.arglist (plug.node.getD [])
+      (fun g => { g with state := (pickState askRx s0 i o []).2.1, val := some s0 }) (fun _ => rfl) hS⟩
 
 theorem stmtSetresult_rel (Q : Bytes → Bool) (d a o p s i) (s' : Store) (hS : SAgree Q d.args s') (hQ : QOn Q d) :
     StmtRel Q (stmtSetresult d a o p s i) (stmtSetresult (withArgs d s') a o p s i) := by
@@ -189,29 +185,25 @@ theorem stmtSetresult_rel (Q : Bytes → Bool) (d a o p s i) (s' : Store) (hS : 
   unfold stmtSetresult'
   have ht : srTarget (withArgs d s') p s = srTarget d p s := rfl
   rw [ht]
-  have hx : (withArgs d s').xmUsed = d.xmUsed := rfl
-  rw [hx]
   split
   · exact ⟨s', rfl, hS⟩
-  · split
-    · exact ⟨s', rfl, hS⟩
-    · rename_i s0 plug htg
-      have hf : ∃ pn, findPlug d pn = some plug := by
-        unfold srTarget at htg
+  · rename_i s0 plug htg
+    have hf : ∃ pn, findPlug d pn = some plug := by
+      unfold srTarget at htg
+      split at htg
+      · simp at htg
+      · rename_i pn _
         split at htg
+        · rename_i s1 plug1 _ hfp
+          simp at htg; exact ⟨pn, by rw [hfp, htg.2]⟩
         · simp at htg
-        · rename_i pn _
-          split at htg
-          · rename_i s1 plug1 _ hfp
-            simp at htg; exact ⟨pn, by rw [hfp, htg.2]⟩
-          · simp at htg
-      obtain ⟨pn, hfp⟩ := hf
-      have hqn := findPlug_QOn Q d hQ pn plug hfp
-      have hany := hS.any a.arglist (plug.node.getD []) hqn
-      dsimp only
-      rw [getArgs_eq, getArgs_eq, withArgs_args, ← hany]
-      exact ⟨_, rfl, setArgs_upd_agree Q d s' a.arglist (plug.node.getD [])
-        (fun g => { g with result := (pickResult askRx s0 i o []).2.1, val := some s0 }) (fun _ => rfl) hS⟩
+    obtain ⟨pn, hfp⟩ := hf
+    have hqn := findPlug_QOn Q d hQ pn plug hfp
+    have hany := hS.any a.arglist (plug.node.getD []) hqn
+    dsimp only
+    rw [getArgs_eq, getArgs_eq, withArgs_args, ← hany]
+    exact ⟨_, rfl, setArgs_upd_agree Q d s' a.arglist (plug.node.getD [])
+      (fun g => { g with result := (pickResult askRx s0 i o []).2.1, val := some s0 }) (fun _ => rfl) hS⟩
 
 /-- every context of the action carries `Q`-plugs only -/
 def ActOK (Q : Bytes → Bool) (a : Action) : Prop := ∀ e ∈ a.exec, CtxOK Q e
